@@ -5,7 +5,8 @@
 
     * the receive loop's part: `recvInvocation` (everything `runHandleInvocation` does up to the
       send into the worker's queue; if the queue is full the loop stays blocked: `pendingSend`),
-      `queueSendDone`, `recvInterrupt`;
+      `queueSendDone`, `queueSendAbandon` (the worker's context ended or EndRecv was called),
+      `recvInterrupt`;
     * per worker, the INNER goroutine (takes invocations from the queue, calls the application's
       handler, hands results to `resChan`, finally runs `cleanupInvHandlersQueue`): `innerTake`,
       `handlerReturn` (environment: the application's handler returns; `drop` = the select after it
@@ -78,6 +79,7 @@ structure Worker where
   outer : Outer := .waiting
   accepted : List Inv := []   -- ghost: everything put into the queue, newest first
   handled : List Inv := []    -- ghost: everything given to the handler, newest first
+  final : Bool := false       -- invHandlersFinal: the invocation's last (non-progressive) message was received
   deriving Repr, Inhabited
 
 inductive Out where
@@ -87,13 +89,26 @@ inductive Out where
   | answer (w : Nat) (m : CMsg)              -- the worker's one YIELD / ERROR
   | ignored (req : Nat)                      -- INVOCATION discarded by the IsNewRecvID gate
   | lost (w : Nat) (i : Inv)                 -- queued after the worker stopped reading
+  | repeated (req : Nat)                     -- INVOCATION for an invocation whose final message was already received: dropped
+  | abandoned (w : Nat) (i : Inv)            -- the loop gave up waiting for room in the queue
   deriving Repr, Inhabited
+
+/-- Regenerated: `invHandlersFinal` is consulted for a live queue, set for every non-progressive
+    message and cleared by the cleanup (fix c166f26). -/
+def genFinalGate : Bool := Client.invFinalGate && Client.invFinalSet && Client.invFinalCleared
+
+/-- Regenerated: the send into the worker's queue is in a select that also watches the worker's
+    context and the session's RecvDone. -/
+def genEnqueueEscapes : Bool :=
+  Client.enqueueSelect == ["send handlerQueue", "recv ctx.Done()", "recv c.sess.RecvDone()"]
 
 structure Cfg where
   invGate : Bool := Client.invGateChecked
+  finalGate : Bool := genFinalGate
+  enqueueEscapes : Bool := genEnqueueEscapes
   queueCap : Nat := Client.invQueueCap
   resCap : Nat := Client.resChanCap
-  pptChecked : Bool := pptChecked
+  ppt : PptFacts := PptFacts.gen
   deser : Deser := fun _ _ => .err
 
 structure State where
@@ -105,6 +120,7 @@ structure State where
   progGate : Nat → Bool := fun _ => false
   pendingSend : Option (Nat × Inv) := none     -- run is blocked in `handlerQueue <- msg`
   clientDone : Bool := false
+  recvDone : Bool := false                     -- sess.EndRecv was called (Close forcing the loop out, abortSession)
   crashed : Option String := none
   out : List Out := []
 
@@ -125,6 +141,8 @@ def tINVOCATION : Nat := 68
 inductive Ev where
   | tick (d : Nat)
   | clientDone
+  | endRecv
+  | queueSendAbandon
   | recvInvocation (i : Inv) (hasHandler : Bool)
   | queueSendDone
   | recvInterrupt (req : Nat)
@@ -140,7 +158,7 @@ inductive Ev where
   deriving Repr, Inhabited
 
 /-- `cleanupInvHandlersQueue`: forget the queue and drain it. -/
-def cleanup (x : Worker) : Worker := { x with live := false, queue := [], inner := .exited }
+def cleanup (x : Worker) : Worker := { x with live := false, queue := [], inner := .exited, final := false }
 
 /-- After the handler's result went into `resChan`: stop on an error result, else go on reading
     while the last invocation was a progressive chunk. -/
@@ -155,21 +173,22 @@ def outerFinish (st : State) (w : Nat) (answered : Bool) : State :=
                       progGate := fun r => if r = x.req then false else st.progGate r }
   st.setW w { x with outer := .exited answered, ctx := some (x.ctx.getD .canceled) }
 
-/-- A further INVOCATION for a live worker: `handlerQueue <- msg` (the loop stays blocked when the
-    queue is full). -/
+/-- A further INVOCATION for a live worker: mark the invocation final if this is its last message,
+    then `select { handlerQueue <- msg; … }` (the loop stays blocked while the queue is full). -/
 def enqueue (cfg : Cfg) (st : State) (w : Nat) (i : Inv) : State :=
   let st := { st with lastRecv := (updateLastRecvID st.lastRecv (UInt64.ofNat i.req)).1 }
   let x := st.ws w
+  let x := { x with final := x.final || (cfg.finalGate && !i.progress) }
   if x.queue.length < cfg.queueCap then
     st.setW w { x with queue := x.queue ++ [i], accepted := i :: x.accepted }
-  else { st with pendingSend := some (w, i) }
+  else { st.setW w x with pendingSend := some (w, i) }
 
 /-- A new worker for invocation `i` (queue, context, kill switch, progress gate). -/
-def create (st : State) (i : Inv) : State :=
+def create (st : State) (i : Inv) (fin : Bool) : State :=
   let w := st.n
   let x : Worker := { req := i.req, reg := i.reg, live := true, queue := [i], accepted := [i],
                       deadline := if i.timeout > 0 then some (st.now + i.timeout.toNat) else none,
-                      progOK := i.recvProgress }
+                      progOK := i.recvProgress, final := fin }
   let st := { st with lastRecv := (updateLastRecvID st.lastRecv (UInt64.ofNat i.req)).1, n := st.n + 1,
                       kill := fun r => if r = i.req then some w else st.kill r,
                       progGate := fun r => if r = i.req then (i.recvProgress || st.progGate r) else st.progGate r }
@@ -178,15 +197,18 @@ def create (st : State) (i : Inv) : State :=
 /-- The part of `runHandleInvocation` after the handler lookup and the PPT handling succeeded. -/
 def accept (cfg : Cfg) (st : State) (i : Inv) : State :=
   match findLive st i.reg i.req st.n with
-  | some w => enqueue cfg st w i
+  | some w =>
+    -- the last message of this invocation was already received: a repeat from the router, dropped
+    if cfg.finalGate && (st.ws w).final then st.emit (.repeated i.req)
+    else enqueue cfg st w i
   | none =>
     if cfg.invGate && !(updateLastRecvID st.lastRecv (UInt64.ofNat i.req)).2 then st.emit (.ignored i.req)
-    else create st i
+    else create st i (cfg.finalGate && !i.progress)
 
 def recvInvocation (cfg : Cfg) (st : State) (i : Inv) (hasHandler : Bool) : Option State :=
   if st.pendingSend.isSome then none else
   if !hasHandler then some (st.emit (.send (.error tINVOCATION i.req N.ErrInvalidArgument))) else
-  match invocationPpt cfg.pptChecked cfg.deser i.details i.args i.kw with
+  match invocationPpt cfg.ppt cfg.deser i.details i.args i.kw with
   | .panic site => some { st with crashed := some site }
   | .ok (.errorReply _) => some (st.emit (.send (.error tINVOCATION i.req N.ErrInvalidArgument)))
   | .ok (.proceed a k) => some (accept cfg st { i with args := a, kw := k })
@@ -196,6 +218,15 @@ def step (cfg : Cfg) (st : State) (ev : Ev) : Option State :=
   match ev with
   | .tick d => some { st with now := st.now + d }
   | .clientDone => some { st with clientDone := true }
+  | .endRecv => some { st with recvDone := true }
+  | .queueSendAbandon =>
+    -- the other cases of the select around `handlerQueue <- msg`
+    match st.pendingSend with
+    | some (w, i) =>
+      if cfg.enqueueEscapes && ((st.ws w).ctx.isSome || st.recvDone) then
+        some ({ st with pendingSend := none }.emit (.abandoned w i))
+      else none
+    | none => none
   | .recvInvocation i h => recvInvocation cfg st i h
   | .queueSendDone =>
     match st.pendingSend with
